@@ -400,6 +400,19 @@ def nan_program(rng):
     return shadowed(fns, calls)
 
 
+def deep_frames_program(rng):
+    """recursion close to the documented call-depth limit (1024 frames) with frames of up to a hundred local slots: inside the
+    documented resource limits, so it runs to its end on every engine"""
+    nloc = rng.choice([40, 96, 120])
+    depth = rng.choice([600, 900, 1000])
+    L = ["fn deep(n: int) -> int {\n"]
+    for i in range(nloc):
+        L.append("    let v%d: int = (+ n %d)\n" % (i, i))
+    L.append("    if (== n 0) {\n        return v%d\n    }\n    return (+ (- v0 n) (+ v%d (deep (- n 1))))\n}\nshadow deep { assert (== (deep 0) %d) }\n" % (nloc - 1, nloc - 1, nloc - 1))
+    L.append("fn main() -> int {\n    (println (deep %d))\n    (println (deep 3))\n    return 0\n}\nshadow main { assert (== 1 1) }\n" % depth)
+    return "".join(L)
+
+
 def struct_order_program(rng):
     """struct definitions in an order that is not the dependency order, by-value nesting, several fields of the same struct type"""
     defs = ["struct Pt { x: int, y: int }",
